@@ -22,6 +22,7 @@ Record case := {
   items : list item;
   outs : list (N * list wout);        (* external waiters: every value read from the channel / the call's result *)
   refusedw : list N;                  (* WaitForReceipt calls that returned "tx not found" *)
+  gaveup : list N;                    (* WaitForReceipt callers whose context the driver ended: they left, nothing is owed *)
   crashed : bool;                     (* the process running the case died with a Go panic *)
   close_ok : bool                     (* Close() returned nil *)
 }.
@@ -239,7 +240,7 @@ Definition agrees (c : case) : bool :=
   if crashed c then panicked s
   else
     negb (panicked s) && close_ok c && negb (pend_mis a) && negb (busy_mis a) && negb (proc_mis a) &&
-    forallb (fun e => wouts_eqb (outcomes_of s (fst e)) (snd e)) (outs c) &&
+    forallb (fun e => memN (fst e) (gaveup c) || wouts_eqb (outcomes_of s (fst e)) (snd e)) (outs c) &&
     same_set (refusedw c) (refused s).
 
 Definition mismatches (cs : list case) : list N := map id (filter (fun c => negb (agrees c)) cs).
@@ -267,7 +268,8 @@ Definition violation_keys (c : case) : list string :=
   bad o ++
   (* resolution: owed outcomes were delivered; a check that had to run ran; after the final drain nobody
      who registered is left without an outcome; nobody is refused while the transaction is unresolved *)
-  (if existsb (fun d => match obs_of (fst d) (outs c) with
+  (if existsb (fun d => negb (memN (fst d) (gaveup c)) &&
+                        match obs_of (fst d) (outs c) with
                         | Some [x] => negb (wout_eqb x (snd d))
                         | Some _ => true
                         | None => false
@@ -275,7 +277,7 @@ Definition violation_keys (c : case) : list string :=
       || stalled a
       || (wl_exited s &&
           existsb (fun e => match snd e, tx_of (fst e) (regs o) with
-                            | [], Some _ => negb (memN (fst e) (refusedw c))
+                            | [], Some _ => negb (memN (fst e) (refusedw c)) && negb (memN (fst e) (gaveup c))
                             | _, _ => false
                             end) (outs c))
       || existsb (fun w => match lookupB w (watch_ok o) with Some false => true | _ => false end) (refusedw c)
